@@ -162,6 +162,24 @@ pub fn cases(quick: bool) -> Vec<RelCase> {
             Rel::Member => out.push(RelCase { rel, args: vec![T::V(0), T::list(vec![T::I(1), T::V(0)])], nvars: 1 }),
             _ => {}
         }
+        // elements that are themselves lists, partially ground on either side: the element and
+        // a list item are not syntactically equal but unify through a nested variable
+        let pair = |a: T, b: T| T::list(vec![a, b]);
+        let nested: Vec<(T, T, u32)> = vec![
+            (pair(T::I(1), T::V(0)), T::list(vec![pair(T::I(1), T::I(2)), pair(T::I(1), T::I(3))]), 1),
+            (pair(T::I(1), T::I(2)), T::list(vec![pair(T::I(2), T::I(2)), pair(T::I(1), T::V(0))]), 1),
+            (pair(T::V(0), T::I(2)), T::list(vec![pair(T::I(1), T::V(1)), pair(T::I(3), T::I(2))]), 2),
+            (pair(T::I(1), T::I(2)), T::list(vec![pair(T::I(1), T::I(2)), pair(T::I(1), T::I(2))]), 0),
+        ];
+        for (x, l, nv) in &nested {
+            match rel {
+                Rel::Member | Rel::Member1 => out.push(RelCase { rel, args: vec![x.clone(), l.clone()], nvars: *nv }),
+                Rel::Rember => out.push(RelCase { rel, args: vec![x.clone(), l.clone(), T::V(*nv)], nvars: *nv + 1 }),
+                Rel::First => out.push(RelCase { rel, args: vec![l.clone(), x.clone()], nvars: *nv }),
+                Rel::ConsR => out.push(RelCase { rel, args: vec![x.clone(), T::V(*nv), l.clone()], nvars: *nv + 1 }),
+                _ => {}
+            }
+        }
         let _ = x;
     }
     out
@@ -288,7 +306,7 @@ fn check(c: &RelCase, index: usize) -> (Vec<Violation>, &'static str) {
         }
     }
     // --- answer counts of member / member1 in terminating modes with a ground list
-    if finite && (c.rel == Rel::Member || c.rel == Rel::Member1) && c.args[1].is_ground() {
+    if finite && (c.rel == Rel::Member || c.rel == Rel::Member1) && c.args[1].is_ground() && (c.args[0].is_var() || c.args[0].is_ground()) {
         if let Some(l) = elems_of(&c.args[1]) {
             let expected = match (&c.args[0], c.rel) {
                 (T::V(_), Rel::Member) => l.len(),
